@@ -21,8 +21,7 @@ import (
 // influence of the assertions after the query text has been simplified under the cube.
 //
 // Soundness: the cubes of a variable are exhaustive (a k-way merge: "i is the first selector
-// that holds", i = 0..k-1, and since the selectors are equivalent to the disjuncts of the
-// merged reach condition at least one of them holds wherever that condition does); the
+// that holds", i = 0..k-1, plus "no selector holds" for paths that do not pass the merge); the
 // simplification only uses the cube's literals; constraints that are dropped (the defining
 // equations of the selectors a cube sets to false) only weaken a query, so unsat answers
 // carry over, and a sat answer of a weakened query is re-checked on the unweakened one.
@@ -40,6 +39,7 @@ type cubeQuery struct {
 	tail   string // from (check-sat) on
 	vars   []splitVar
 	selDef map[string]bool // names of selector constants
+	bvHeavy bool           // the query shifts 256-bit values: split on shift-amount bits first
 }
 
 var selNameRe = regexp.MustCompile(`^sel![0-9]+![0-9]+$`)
@@ -50,10 +50,22 @@ var fitsNameRe = regexp.MustCompile(`^fits![0-9]+$`)
 type splitVar struct {
 	names []string
 	fits  bool
+	bits  bool // names are pseudo-literals bit!<const>!<i>: all combinations are enumerated
 }
 
 // cubes returns, per value, the literal assignment it makes.
 func (v splitVar) cubes() []map[string]bool {
+	if v.bits {
+		var out []map[string]bool
+		for c := 0; c < 1<<len(v.names); c++ {
+			m := map[string]bool{}
+			for i, n := range v.names {
+				m[n] = c&(1<<i) != 0
+			}
+			out = append(out, m)
+		}
+		return out
+	}
 	if v.fits {
 		return []map[string]bool{{v.names[0]: true}, {v.names[0]: false}}
 	}
@@ -66,6 +78,12 @@ func (v splitVar) cubes() []map[string]bool {
 		m[v.names[i]] = true
 		out = append(out, m)
 	}
+	// ... and the case that the merge point is not on the path at all (no selector holds)
+	none := map[string]bool{}
+	for _, n := range v.names {
+		none[n] = false
+	}
+	out = append(out, none)
 	return out
 }
 
@@ -78,7 +96,7 @@ func parseCubeQuery(q string) (*cubeQuery, error) {
 	if err != nil {
 		return nil, err
 	}
-	cq := &cubeQuery{tail: q[idx:], selDef: map[string]bool{}}
+	cq := &cubeQuery{tail: q[idx:], selDef: map[string]bool{}, bvHeavy: isBVHeavy(q)}
 	group := map[string]int{}
 	for _, e := range es {
 		f := qform{kind: "other"}
@@ -96,6 +114,18 @@ func parseCubeQuery(q string) (*cubeQuery, error) {
 				}
 			case "declare-const":
 				f.kind = "declare"
+				if len(e.List) == 3 && strings.HasPrefix(e.List[1].Atom, "p_") && e.List[2].String() == "(_ BitVec 8)" {
+					// an 8-bit parameter (a shift amount, a bit length): splitting on its low bits turns
+					// barrel shifters over 256-bit values into constant shifts
+					n := e.List[1].Atom
+					for _, r := range [][2]int{{0, 3}, {3, 6}} {
+						v := splitVar{bits: true}
+						for i := r[0]; i < r[1]; i++ {
+							v.names = append(v.names, fmt.Sprintf("bit!%s!%d", n, i))
+						}
+						cq.vars = append(cq.vars, v)
+					}
+				}
 				if len(e.List) == 3 && selNameRe.MatchString(e.List[1].Atom) {
 					n := e.List[1].Atom
 					cq.selDef[n] = true
@@ -256,6 +286,7 @@ func (cq *cubeQuery) specialise(cube map[string]bool) (string, []splitVar, bool)
 		asg[k] = v
 	}
 	bodies := make([]*SExp, len(cq.forms))
+	var fitsAsserts []*SExp
 	weakened := false
 	// once a merge's incoming path is chosen, the other selectors of that merge are irrelevant
 	// (the merged terms no longer mention them): their defining equations are dropped as well
@@ -283,6 +314,15 @@ func (cq *cubeQuery) specialise(cube map[string]bool) (string, []splitVar, bool)
 		case "define":
 			b := simp(f.body, asg)
 			bodies[i] = b
+			if v, ok := cube[f.name]; ok && fitsNameRe.MatchString(f.name) {
+				// the name is replaced by its cube value everywhere; the definition itself becomes
+				// a constraint (a case split must assert its case)
+				if v {
+					fitsAsserts = append(fitsAsserts, b)
+				} else {
+					fitsAsserts = append(fitsAsserts, &SExp{List: []*SExp{{Atom: "not"}, b}})
+				}
+			}
 			if !fitsNameRe.MatchString(f.name) || true {
 				if isT(b) {
 					asg[f.name] = true
@@ -329,6 +369,9 @@ func (cq *cubeQuery) specialise(cube map[string]bool) (string, []splitVar, bool)
 			mark(bodies[i])
 		}
 	}
+	for _, a := range fitsAsserts {
+		mark(a)
+	}
 	// the get-value terms of the tail
 	if es, err := parseSExps(cq.tail); err == nil {
 		for _, e := range es {
@@ -360,7 +403,12 @@ func (cq *cubeQuery) specialise(cube map[string]bool) (string, []splitVar, bool)
 			sb.WriteByte('\n')
 		}
 	}
-	// the cube itself (literals on declared constants; fits literals are already substituted)
+	for _, a := range fitsAsserts {
+		sb.WriteString("(assert ")
+		sb.WriteString(a.String())
+		sb.WriteString(")\n")
+	}
+	// the cube itself (literals on declared constants; fits literals are substituted and asserted above)
 	for k, v := range cube {
 		if cq.selDef[k] {
 			if v {
@@ -369,10 +417,35 @@ func (cq *cubeQuery) specialise(cube map[string]bool) (string, []splitVar, bool)
 				fmt.Fprintf(&sb, "(assert (not %s))\n", k)
 			}
 		}
+		if c, i, ok := bitLit(k); ok {
+			b := "#b0"
+			if v {
+				b = "#b1"
+			}
+			fmt.Fprintf(&sb, "(assert (= ((_ extract %d %d) %s) %s))\n", i, i, c, b)
+		}
 	}
 	sb.WriteString(cq.tail)
 	var rel []splitVar
-	for i := len(cq.vars) - 1; i >= 0; i-- {
+	order := make([]int, 0, len(cq.vars))
+	if cq.bvHeavy {
+		// 256-bit shifts by a symbolic amount dominate: fix the amount's bits first
+		for i := range cq.vars {
+			if cq.vars[i].bits {
+				order = append(order, i)
+			}
+		}
+		for i := len(cq.vars) - 1; i >= 0; i-- {
+			if !cq.vars[i].bits {
+				order = append(order, i)
+			}
+		}
+	} else {
+		for i := len(cq.vars) - 1; i >= 0; i-- {
+			order = append(order, i)
+		}
+	}
+	for _, i := range order {
 		v := cq.vars[i]
 		assigned := false
 		for _, n := range v.names {
@@ -384,6 +457,9 @@ func (cq *cubeQuery) specialise(cube map[string]bool) (string, []splitVar, bool)
 			continue
 		}
 		for _, n := range v.names {
+			if c, _, ok := bitLit(n); ok {
+				n = c
+			}
 			if used[n] {
 				rel = append(rel, v)
 				break
@@ -398,6 +474,14 @@ func (cq *cubeQuery) fullWithCube(q string, cube map[string]bool) string {
 	idx := strings.LastIndex(q, "(check-sat)")
 	var sb strings.Builder
 	for k, v := range cube {
+		if c, i, ok := bitLit(k); ok {
+			b := "#b0"
+			if v {
+				b = "#b1"
+			}
+			fmt.Fprintf(&sb, "(assert (= ((_ extract %d %d) %s) %s))\n", i, i, c, b)
+			continue
+		}
 		if v {
 			fmt.Fprintf(&sb, "(assert %s)\n", k)
 		} else {
@@ -432,6 +516,10 @@ func solveSplit(q string, secs int, tag string) (SolveResult, bool) {
 	if secs < nodeSecs {
 		nodeSecs = secs
 	}
+	nodeMs := 0
+	if v := os.Getenv("GOCV_SPLITNODEMS"); v != "" {
+		fmt.Sscanf(v, "%d", &nodeMs) // debugging: force deep splitting
+	}
 	debug := os.Getenv("GOCV_SPLITDEBUG") != ""
 	var node func(cube map[string]bool, depth int, try bool) string
 	node = func(cube map[string]bool, depth int, try bool) string {
@@ -440,6 +528,9 @@ func solveSplit(q string, secs int, tag string) (SolveResult, bool) {
 		}
 		text, rel, weakened := cq.specialise(cube)
 		leaf := len(rel) == 0 || depth >= splitMaxDepth
+		if try && cq.bvHeavy && len(rel) > 0 && rel[0].bits {
+			try = false // keep splitting until the shift amount is fixed
+		}
 		if try {
 			mu.Lock()
 			runs++
@@ -457,7 +548,12 @@ func solveSplit(q string, secs int, tag string) (SolveResult, bool) {
 				t = secs
 			}
 			sem <- struct{}{}
-			r := runSolver(ctx, solvers[0], text, t, fmt.Sprintf("%s.c%d", tag, n))
+			var r SolveResult
+			if nodeMs > 0 && !leaf {
+				r = runSolverMs(ctx, solvers[0], text, nodeMs, fmt.Sprintf("%s.c%d", tag, n))
+			} else {
+				r = runSolver(ctx, solvers[0], text, t, fmt.Sprintf("%s.c%d", tag, n))
+			}
 			if r.Status == "sat" && weakened {
 				// constraints were dropped: confirm on the full query restricted to this cube
 				r = runSolver(ctx, solvers[0], cq.fullWithCube(q, cube), secs, fmt.Sprintf("%s.c%dc", tag, n))
@@ -524,4 +620,22 @@ func solveSplit(q string, secs int, tag string) (SolveResult, bool) {
 		return SolveResult{Status: "unsat", Solver: solvers[0].name + "+split", Secs: el}, true
 	}
 	return SolveResult{}, false
+}
+
+// bitLit decodes the pseudo-literal bit!<const>!<i>.
+func bitLit(k string) (string, int, bool) {
+	if !strings.HasPrefix(k, "bit!") {
+		return "", 0, false
+	}
+	j := strings.LastIndex(k, "!")
+	var i int
+	if _, err := fmt.Sscanf(k[j+1:], "%d", &i); err != nil {
+		return "", 0, false
+	}
+	return k[4:j], i, true
+}
+
+// isBVHeavy: the query contains shifts over 256-bit vectors and an 8-bit parameter to split on.
+func isBVHeavy(q string) bool {
+	return strings.Contains(q, "(_ BitVec 256)") || strings.Contains(q, "zero_extend 248") || strings.Contains(q, "(concat (concat")
 }
